@@ -676,10 +676,12 @@ def run_c18(tier, deadline):
         k += 1
         os.makedirs(tmpd, exist_ok=True)
         args = ["--config", c, "--mode", mode, "--bound", str(bound), "--threads", str(threads), "--tmpdir", tmpd, "--tier", tier] + (["--core"] if core else []) + (["--seq"] if seq else [])
+        if tier == "quick" and (mode == "fine" or seq):
+            args += ["--shapes", "0,3"]     # quick tier: the shape with isolated low vertices and the one with a long mutation history
         j = Job(builds[(c, comp)], args, label="%s %s %s k=%d P<=%d%s%s" % (comp, c, mode, threads, bound, " core" if core else "", " two-call sequences" if seq else ""), timeout=(dl or deadline) + 300, deadline=dl or deadline, env=TSAN_ENV)
         jobs.append(j)
 
-    for c in (["dir_int", "und_string", "dweighted", "umulti"] if tier == "quick" else classes):
+    for c in (["dir_int", "und_string", "dweighted"] if tier == "quick" else classes):
         add(c, "g++", "coarse", 2, 2, False, seq=True)   # each thread makes two const calls in a row
 
     for c in classes:
@@ -690,7 +692,7 @@ def run_c18(tier, deadline):
         add(c, "clang++", "coarse", 2, 2, False)
     for c in (["dir_int", "uweighted"] if tier == "quick" else classes):
         add(c, "g++", "coarse", 2, 3, True)      # all triples of the core
-    fine1 = ["dir_int", "und_string", "umulti", "dweighted"] if tier == "quick" else classes
+    fine1 = ["dir_int", "und_string", "dweighted"] if tier == "quick" else classes
     for c in fine1:
         add(c, "g++", "fine", 1, 2, True)        # function-entry switch points, one preemption
     if tier == "thorough":
@@ -721,6 +723,7 @@ def run_c18(tier, deadline):
     per = {}
     for r in results:
         per[r.get("config", "?")] = {kk: r.get("counters", {}).get(kk, 0) for kk in ("op_tuples", "executions", "switch_points", "max_points_in_one_execution", "distinct_outcomes", "operations")}
+        per[r.get("config", "?")]["wall_s"] = r.get("wall_s")
     execs = sum_counter(results, "executions")
     outcome.coverage = {
         "states": execs,
